@@ -18,11 +18,11 @@ import (
 
 // Registry maps scenario names to scenarios and properties to the scenarios that decide them.
 type Registry struct {
-	Scenarios map[string]Scenario
-	Serves    map[string][]string // property -> scenario names
-	Components map[string][2][]string // scenario -> {real, stub}
-	Assumptions map[string][]string  // property -> assumptions text
-	MinProbes map[string][]string    // property -> probes that must be > 0 in a full tier (reach self-check)
+	Scenarios   map[string]Scenario
+	Serves      map[string][]string    // property -> scenario names
+	Components  map[string][2][]string // scenario -> {real, stub}
+	Assumptions map[string][]string    // property -> assumptions text
+	MinProbes   map[string][]string    // property -> probes that must be > 0 in a full tier (reach self-check)
 	// UnstableSUT lists properties whose violation IS nondeterminism of the code under test (C14): one
 	// execution of a failing plan shows the divergence only with some probability, so shrinking and
 	// replay re-execute a plan several times and the fingerprint equality of two replays is not required.
@@ -403,18 +403,18 @@ func (a *agg) evidence(reg *Registry, property, tier string, base int64, wall fl
 		"rule": "one evaluation = one seeded simulated run (swarm configuration + plan of abstract operations executed against the real application). " +
 			"A run is non-trivial when at least one fault kind actually fired and at least one operation of the property's kind was accepted by the real code; " +
 			"distinct = distinct fingerprints of the abstract schedule (sequence of actor/message kind/target chain/outcome/corruption kind), counted as a hash set merged over workers",
-		"samples":              a.samples,
-		"distinct_schedules":   len(a.sched),
-		"distinct_states":      len(a.states),
-		"state_measure":        "hash of the multiset of packet life-cycle states per chain pair after every block (or the scenario's own abstraction)",
-		"runs_per_hour":        perHour,
-		"simulated_time_s":     a.sim,
-		"ops_executed":         a.ops,
-		"faults_fired":         a.faults,
-		"probes":               a.probes,
-		"components":           map[string]interface{}{"real": dedup(real), "stub": dedup(stub)},
-		"scenarios":            scen,
-		"known_findings_hit":   known,
+		"samples":                      a.samples,
+		"distinct_schedules":           len(a.sched),
+		"distinct_states":              len(a.states),
+		"state_measure":                "hash of the multiset of packet life-cycle states per chain pair after every block (or the scenario's own abstraction)",
+		"runs_per_hour":                perHour,
+		"simulated_time_s":             a.sim,
+		"ops_executed":                 a.ops,
+		"faults_fired":                 a.faults,
+		"probes":                       a.probes,
+		"components":                   map[string]interface{}{"real": dedup(real), "stub": dedup(stub)},
+		"scenarios":                    scen,
+		"known_findings_hit":           known,
 		"out_of_focus_violations_seen": a.otherViol,
 	}
 	return map[string]interface{}{
